@@ -7,12 +7,6 @@ Require Import Rig.Model.Base Rig.Generated.GenGeometryLinks Rig.Generated.GenGe
 Import ListNotations.
 Open Scope Z_scope.
 
-(* the fault-free w x h torus *)
-Definition perfect (w h : Z) : rmachine :=
-  {| rm_w := w; rm_h := h; rm_dead_chips := []; rm_dead_links := [] |}.
-
-Definition in_range (w h : Z) (c : chip) : Prop := 0 <= fst c < w /\ 0 <= snd c < h.
-
 (* a labelled walk: every step goes from the previous chip over the labelled link *)
 Definition step_rel := chip -> Z -> chip -> Prop.
 
